@@ -54,7 +54,10 @@ pub struct Sizes {
 }
 
 pub fn sizes(ctx: &Ctx, scale: usize) -> Sizes {
-    if ctx.thorough {
+    if ctx.soak {
+        // random-only shard: no enumeration beyond the trivial sizes, larger random terms
+        Sizes { enum_size: 3, enum_free: 1, n_random: 40000 * scale, rand_size: 70 }
+    } else if ctx.thorough {
         Sizes { enum_size: 9, enum_free: 2, n_random: 40000 * scale, rand_size: 50 }
     } else {
         Sizes { enum_size: 8, enum_free: 2, n_random: 4000 * scale, rand_size: 40 }
